@@ -296,7 +296,7 @@ class Model:
             m.cur = Entry(act[1], "now")
             p.events.append("now-chain")
             self._step(m, p, now, durations, script_action, choose, nested=True)
-        elif kind == "done":
+        elif kind in ("done", "done_now"):
             m.running = False
             m.cur = None
             m.user_done_since_engage = True
